@@ -59,7 +59,12 @@ def one(src, dst, pid, det, conf):
     with open(os.path.join(dst, "meta.json"), "w") as f:
         json.dump(meta, f, indent=1)
     return True
-r1, r2 = results("RESULT"), results("RESULT2")
+DET3 = {}
+try:
+    DET3 = json.load(open("/verif/gen/seeded_wave3.json"))
+except Exception:
+    pass
+r1, r2, r3 = results("RESULT"), results("RESULT2"), results("RESULT3")
 rows = []
 for i in range(1, 21):
     pid = "C%02d" % i
@@ -67,13 +72,15 @@ for i in range(1, 21):
         rows.append((pid, "1", DET.get(pid, {}), r1.get(pid)))
     if one("/tmp/seed2/%s/seed_out" % pid, os.path.join(ROOT, pid + "-2"), pid, DET2.get(pid, {}), r2.get(pid)):
         rows.append((pid, "2", DET2.get(pid, {}), r2.get(pid)))
+    if one("/tmp/seed3/%s/seed_out" % pid, os.path.join(ROOT, pid + "-3"), pid, DET3.get(pid, {}), r3.get(pid)):
+        rows.append((pid, "3", DET3.get(pid, {}), r3.get(pid)))
 with open(os.path.join(ROOT, "README.md"), "w") as f:
     f.write("# Seeded changes\n\nEach directory holds `patch.diff` (applies to /repo HEAD with `git -C /repo apply`), the demonstration (`demo.cc`, `run.sh`) and `meta.json` "
             "(what it breaks, what it needs to manifest, what was run).  Produced by independent sub-agents that saw only the property text; confirmed by the lead "
             "(builds, existing suite passes, demo fails with / passes without).  Checks were run with `gen/seedtest.sh <patch> <check>` (scratch copy, `VERIF_REPO`).\n\n"
             "| property | wave | change (summary) | first result | final result | strengthening |\n|---|---|---|---|---|---|\n")
     for pid, w, det, conf in rows:
-        d = os.path.join(ROOT, pid if w == "1" else pid + "-2")
+        d = os.path.join(ROOT, pid if w == "1" else pid + "-" + w)
         try:
             summ = json.load(open(os.path.join(d, "meta.json"))).get("summary", "")
         except Exception:
